@@ -293,13 +293,20 @@ class CacheFactory(object):
         """
         Return all the objects in the cache.
         """
-        if self.doCache:
-            all = list(self.cache.values())
-        else:
-            all = []
-        for value in self.expiredCache.values():
-            if value():
-                all.append(value())
+        # the weak dict changes under the lock only (get, cull, expire,
+        # expireAll): iterate over it under the lock
+        self.lock.acquire()
+        try:
+            if self.doCache:
+                all = list(self.cache.values())
+            else:
+                all = []
+            for value in self.expiredCache.values():
+                obj = value()
+                if obj is not None:
+                    all.append(obj)
+        finally:
+            self.lock.release()
         return all
 
 
